@@ -135,12 +135,21 @@ def run(ck):
         ta = TimeAxis(0.0, nt, dt)
         rmK = RateMatrix(data=K.copy()) if rng.random() < 0.5 else K.copy()
         prop = PopulationPropagator(ta, rmK)
-        pops = prop.propagate(p0.copy() if rng.random() < 0.5 else list(p0))
+        arg = p0.copy() if rng.random() < 0.5 else list(p0)
+        form = "float array" if isinstance(arg, numpy.ndarray) else "list of floats"
+        if h % 4 == 1:
+            # whole-number populations handed over as Python ints / an integer array
+            ints = [rng.randint(0, 3) for _ in range(N)]
+            if sum(ints) == 0:
+                ints[0] = 2
+            p0 = numpy.array(ints, dtype=float)
+            arg, form = (list(ints), "list of ints") if h % 8 == 1 else (numpy.array(ints, dtype=int), "integer array")
+        pops = numpy.asarray(prop.propagate(arg), dtype=float)
         emit("new %d %s" % (N, " ".join(frac(x) for x in K.flatten())), "ok")
         emit("prop %s 4 1 %d %s" % (frac(dt), nt, " ".join(frac(x) for x in p0)),
              " | ".join(" ".join(frac(x) for x in row) for row in pops), 1e-9 * max(1.0, float(numpy.abs(pops).max())))
         ck.case(("prop", N, K.tobytes(), p0.tobytes(), dt, nt), nontrivial=N >= 3, kind="propagate", size=N,
-                coarse_step=bool(dt * numpy.abs(numpy.diag(K)).max() > 1.0), negative_component=bool(pops.min() < -1e-9),
+                coarse_step=bool(dt * numpy.abs(numpy.diag(K)).max() > 1.0), negative_component=bool(pops.min() < -1e-9), initial=form,
                 sample={"K": K.tolist(), "p0": p0.tolist(), "dt": dt, "nt": nt} if h < 1 else None)
         # oracle: conservation, sign, distance to exp within the truncation bound
         s0 = p0.sum()
